@@ -235,6 +235,7 @@ func runCheck(repo, verif, prop, tier string, seed int) int {
 	knownSeen := map[string]bool{}
 	trusted := map[string]bool{}
 	modelNotes := map[string]bool{}
+	inlinedAll := map[string]bool{}
 	havoc := map[string]bool{}
 	inferred := 0
 	covers := 0
@@ -289,6 +290,9 @@ func runCheck(repo, verif, prop, tier string, seed int) int {
 		}
 		for _, h := range r.Havoc {
 			havoc[h] = true
+		}
+		for _, h := range r.Inlined {
+			inlinedAll[h] = true
 		}
 		funcs = append(funcs, fj)
 		_ = i
@@ -381,6 +385,7 @@ func runCheck(repo, verif, prop, tier string, seed int) int {
 			"vacuity":                  map[string]any{"cover_checks": covers, "min_obligations": pc.MinObligations},
 			"outside_subset":           outside,
 			"uncontracted_callees_havoced": hv,
+			"callees_inlined":              sortedKeys(inlinedAll),
 			"known_findings_seen":      known,
 			"not_reached":              pc.NotReached,
 			"undischarged":             violationOrder,
